@@ -1,6 +1,6 @@
 """C19 -- matrix utilities compute their stated algebraic result.
 
-correspondence : scale_rows / scale_columns (CSR, CSC, BSR; COO through the CSR fallback), get_diagonal
+correspondence : scale_rows / scale_columns (CSR, CSC, BSR; COO through the CSR fallback and, E26, the COO model `cooScale`), get_diagonal
                  (norm_eq 0/1/2, inv), symmetric_rescaling, filter_matrix_rows / filter_matrix_columns
                  (maximum and diagonal rule, lumping), truncate_rows, get_block_diag, scale_block_inverse,
                  filter_operator and the raw kernels csc_scale_rows / csc_scale_columns / filter_matrix_rows /
@@ -49,9 +49,14 @@ META = {
                 'left inverse) and filter_operator_model_constraint / filter_operator_residual_zero (every flagged row of '
                 'filterOp satisfies A_f B = Bf, i.e. the constraint-ok flag of the driver can never be broken for inputs '
                 'of consistent shape)',
-                'penrose_unique / proj_constraint are Mathlib-matrix statements; the executable Mat.pinv is tied to them per '
-                'instance (the four Penrose equations are decided exactly inside the model) rather than by a proof that the '
-                'rank-factorisation candidate always passes'],
+                'block pseudo-inverse: closed by extension E26 -- pinv_total (for every rectangular input over a field with a '
+                'positive definite conjugation, instances conj_id_rat / conj_crat, Mat.pinv returns the unique solution of the '
+                'four Penrose equations; the reply `fail` of c19_pinv / c19_blockdiag / c19_sbi is unreachable), '
+                'model_penrose_check_is_mathlib ties the Boolean check to the Mathlib statement of penrose_unique, '
+                'block_diag_inv_total / scale_block_inverse_spec state the block-diagonal pseudo-inverse scaling; '
+                'COO fallback of scale_rows / scale_columns: model cooScale (op ext_c19_cooscale) with '
+                'coo_scale_rows_entry / coo_scale_cols_entry',
+                'proj_constraint is a Mathlib-matrix statement (real transpose, shared with C10)'],
     'assumptions': ['binary64 rounding is outside the model: exact comparison on dyadic inputs, tolerance 1e-9 where a quotient '
                     'or square root is not dyadic; complex moduli equal or within 1e-12 of a threshold are not judged',
                     'block pseudo-inverses (Jacobi SVD kernel / LAPACK gelss) are compared with the exact Moore-Penrose inverse '
@@ -556,7 +561,29 @@ def eval_scale(ctx, c, feats=()):
 
         it.ask(line, partial(_cmp_csrdata_dense, indices=T.indices, indptr=T.indptr, shape=T.shape, dense=R.toarray(), cplx=cplx, tol=1e-12),
                R.toarray().tolist())
+        if fmt == 'coo':
+            # (E26) the fallback branch on the raw COO triples: model `cooScale` (own COO -> canonical CSR conversion, no SciPy)
+            line2 = (f'ext_c19_cooscale {mode} {which} {orig.shape[0]} {enc_ints(orig.row)} {enc_ints(orig.col)} '
+                     f'{ev(orig.data, cplx)} {ev(v, cplx)}')
+            it.ask(line2, partial(_cmp_coo_canon, R=R, cplx=cplx), R.toarray().tolist())
+            it.feats.add('coo_fallback_model')
     return it
+
+
+def _cmp_coo_canon(reply, R, cplx):
+    """`ptr;idx;data` of the model (canonical CSR) against the COO result: same stored positions (as a set; duplicates
+    of the result summed here, in Python) and same values"""
+    p, j, x = reply.split(';')
+    ptr = dec_list(p, int)
+    idx = dec_list(j, int)
+    acc = {}
+    for r, c, val in zip(R.row.tolist(), R.col.tolist(), R.data.tolist()):
+        acc[(r, c)] = acc.get((r, c), 0) + val
+    keys = sorted(acc)
+    mkeys = [(i, idx[k]) for i in range(len(ptr) - 1) for k in range(ptr[i], ptr[i + 1])]
+    if mkeys != keys:
+        return 'stored positions of the COO result differ from the canonical structure of the input'
+    return _cmp_vals(x, np.array([acc[k] for k in keys]), cplx)
 
 
 # ------------------------------------------------------------------------------------------------
